@@ -324,7 +324,7 @@ def c17_malformed(tier, rng):
     for b in ([2] if tier == "quick" else [0, 1, 2]):
         d = variant(bits=b)
         out.append(("width", c17_one(d), decl_json(d), c17_one(variant(bits=3)), decl_json(variant(bits=3))))
-    for mx, b in ([(255, 7), (16, 4)] if tier == "quick" else [(255, 7), (128, 7), (16, 4), (8, 3), (4, 2), (2, 1)]):
+    for mx, b in ([(255, 7), (16, 4)] if tier == "quick" else [(255, 7), (128, 7), (16, 4), (8, 3), (4, 2), (3, 1)]):
         d = variant(bits=b)
         d["variants"][3]["disc"] = mx
         d["variants"][3]["disc_src"] = str(mx)
